@@ -27,10 +27,10 @@ NAME_FAMILIES = [
     ["Rain", "Wet-Grass", "Sprinkler_2", "Z9", "Q_", "LongerName-With-Dashes"],
     ["b", "c", "d", "f", "g", "h", "k", "u", "v", "w", "y"],
 ]
-# sanitised forms that are keywords of Polar's language or symengine/sympy constants (finding F31)
-RESERVED = ["E", "Pi", "Oo", "Zoo", "Nan", "I", "N", "True", "False", "If", "Else", "Elif", "End", "While",
-            "e", "pi", "P-i", "en-d", "Bernoulli", "Normal", "Uniform", "Exp", "Sin"]
-RESERVED_SANITISED = {"e", "pi", "oo", "zoo", "nan", "true", "false", "if", "else", "elif", "end", "while", "i"}
+# names whose sanitised form is in RESERVED_NAMES of bayesnet/code_generator.py (they get a `_` suffix since repo
+# commit 883f624, former finding F31) and a few look-alikes
+RESERVED = ["E", "Pi", "Oo", "Zoo", "Nan", "Inf", "I", "N", "True", "False", "If", "Else", "Elif", "End", "While", "Types",
+            "e", "pi", "P-i", "en-d", "in-f", "Bernoulli", "Normal", "Uniform", "Exp", "Sin"]
 
 VALUE_POOLS = {
     1: [["only"], ["0"], ["x"]],
